@@ -1,11 +1,11 @@
 package main
 
 import (
-	"regexp"
 	"fmt"
 	"go/constant"
 	"go/token"
 	"go/types"
+	"regexp"
 	"strings"
 
 	"golang.org/x/tools/go/ssa"
